@@ -395,7 +395,8 @@ def _witness(eq):
                 if mm:
                     toks.append('T%s:i%d' % (pc.hx(gd[kind]), int(mm.group(1) or 0)))
                 else:
-                    toks.append('T%s:s%s' % (pc.hx(gd[kind]), pc.hx(idx)))
+                    raw = m.group(0)[len(gd[kind]) + 1:-1]      # the text between the brackets as it stands (blanks included)
+                    toks.append('T%s:s%s' % (pc.hx(gd[kind]), pc.hx(raw)))
             elif kind == '_FUNCTION':
                 toks.append('F' + pc.hx(m.group(0)))
             elif kind == '_KEYWORD':
